@@ -121,7 +121,10 @@ const ALPHA: [char; 11] = ['<', '>', ';', ',', '"', '\\', '=', ' ', 'a', 'é', '
 
 fn rand_value(r: &mut Rng, maxlen: u64) -> String {
     let n = r.below(maxlen + 1);
-    (0..n).map(|_| match r.below(10) { 0..=5 => r.pick(&ALPHA), 6 => r.pick(&['€', '𝄞', '\u{a0}', '\u{3000}', '\t', '\r']), 7 => r.pick(&['0', '9', 'Z', 'z']), _ => char::from_u32(32 + r.below(95) as u32).unwrap() }).collect()
+    (0..n).map(|_| match r.below(10) { 0..=5 => r.pick(&ALPHA), 6 => r.pick(&['€', '𝄞', '\u{a0}', '\u{3000}', '\t', '\r']),
+        // every Unicode White_Space code point and both neighbours of each run (what str::trim and char::is_whitespace decide)
+        9 if r.chance(1, 2) => char::from_u32(r.pick(&[8u32, 9, 10, 11, 12, 13, 14, 31, 32, 33, 132, 133, 134, 159, 160, 161, 5759, 5760, 5761, 8191, 8192, 8193, 8197, 8201, 8202, 8203,
+                                                     8231, 8232, 8233, 8234, 8238, 8239, 8240, 8286, 8287, 8288, 12287, 12288, 12289, 0x180e, 0x200b, 0xfeff])).unwrap(), 7 => r.pick(&['0', '9', 'Z', 'z']), _ => char::from_u32(32 + r.below(95) as u32).unwrap() }).collect()
 }
 fn rand_key(r: &mut Rng) -> String {
     let n = r.below(4);
@@ -185,7 +188,7 @@ pub fn gen170(tier: &str, r: &mut Rng, emit: &mut dyn FnMut(Vec<u64>)) {
     let thorough = tier == "thorough";
     // all strings of length <= 5 (thorough 7) over the property's 10-symbol alphabet
     let alpha: [char; 10] = ['<', '>', ';', ',', '"', '\\', '=', ' ', 'a', 'é'];
-    let maxl = if thorough { 7 } else { 5 };
+    let maxl = if thorough { 6 } else { 5 };
     let mut idx: Vec<usize> = Vec::new();
     loop {
         let s: String = idx.iter().map(|&i| alpha[i]).collect();
